@@ -12,6 +12,12 @@ CLAIMED = {
         note="Assumes text/template, go/format, gob, gzip, sort, fmt deterministic; field-based heap abstraction; go/ssa + VTA call graph trusted. Does not decide library determinism.",
         technique="static analysis: SSA loop-idiom classification + field-based order-taint (explicit and control-dependence flows) to file/exit sinks",
         design="§4 C11, §3 E5"),
+    "C12": dict(
+        level="other",
+        text="Decided structurally for all grammars: the debug instantiations of lexer.go/parser.go equal the plain ones up to inserted print statements with effect-free operands (statement-level diff of the instantiated templates, R12.1); -zip: gob payload types are identical on both sides, encoder arm -> code and decoder code -> constructor compose to the plain writer's cells, canRecover and every goto cell are copied over exactly the table dimensions, both writers read the same sources (R12.2); the flag getters are confined to selecting the writer / the Debug field / skipping the lexer generator / adding diagnostics (R12.3). So the flags cannot change the recognised language, reductions, results, errors or positions.",
+        note="NOT decided: gob/gzip round-trip fidelity (stdlib). Trusted: go/parser+go/printer statement comparison, go/ssa, checker/sx.go.",
+        technique="static analysis: AST diff of template instantiations + writer/reader agreement tables by abstract interpretation + use-site enumeration of flag getters",
+        design="§4 C12"),
     "C15": dict(
         level="translation_validation",
         text="The checked-in LR tables of gocc's own parser are validated against spec/gocc2.ebnf: the checker reads the specification with its own reader, builds the canonical LR(1) automaton with its own construction and walks it in lock-step with tables.go (all state x token and state x nonterminal cells, productions with head/body/length/action text), requiring a bijection of states. Error recovery must be inert (R15.3). Cell-wise agreement up to state renaming of two deterministic automata implies equal token languages and reduction sequences, which is exactly the property; no finite set of test inputs can show that.",
